@@ -39,6 +39,8 @@ def cut_decidable(spectra, thr):
 
 
 class Mandy(ApiImmut):
+    freeze = True  # the oracle sees the arguments as they were at call entry; arrays / lists rewritten by the call are reported
+    input_prop = P
     def __init__(self, name):
         ApiImmut.__init__(self, 'regression.' + name)
         self.name = name
@@ -89,6 +91,8 @@ class Mandy(ApiImmut):
 
 
 class MandyKb(ApiImmut):
+    freeze = True  # the oracle sees the arguments as they were at call entry; arrays / lists rewritten by the call are reported
+    input_prop = P
     def __init__(self):
         ApiImmut.__init__(self, 'regression.mandy_kb')
 
@@ -154,6 +158,8 @@ class ArrUpdate(probe.Contract):
 
 
 class Arr(ApiImmut):
+    freeze = True  # the oracle sees the arguments as they were at call entry; arrays / lists rewritten by the call are reported
+    input_prop = P
     def __init__(self):
         ApiImmut.__init__(self, 'regression.arr')
 
